@@ -208,6 +208,14 @@ type notSeekable struct{ r io.Reader }
 
 func (n notSeekable) Read(p []byte) (int, error) { return n.r.Read(p) }
 
+// seekFails has a Seek method that always fails, like an *os.File that is a pipe
+type seekFails struct{ r io.Reader }
+
+func (n seekFails) Read(p []byte) (int, error) { return n.r.Read(p) }
+func (n seekFails) Seek(int64, int) (int64, error) {
+	return 0, errors.New("seek: illegal seek")
+}
+
 func schedCase(o *suiteOut, in input, sched string, rd io.Reader, base string, idx int) {
 	line := fmt.Sprintf("sched %s %d %s", in.kind, idx, sched)
 	got := runInput(in.kind, rd)
@@ -253,6 +261,7 @@ func suiteSched(o *suiteOut, r *rng, tier string, n int) {
 			schedCase(o, in, "one-byte+eof", &chunkedReader{data: cp(), next: func(int) int { return 1 }, eofWith: true}, base, idx)
 			schedCase(o, in, "all+eof", &chunkedReader{data: cp(), next: func(rem int) int { return rem }, eofWith: true}, base, idx)
 			schedCase(o, in, "not-seekable", notSeekable{bytes.NewReader(in.data)}, base, idx)
+			schedCase(o, in, "seek-fails", seekFails{bytes.NewReader(in.data)}, base, idx)
 		{
 			// a seekable source that does not start at offset 0 (a font inside a container file)
 			junk := []byte("JUNK-BEFORE-THE-DATA\x00\x80\x01%!")
@@ -370,6 +379,17 @@ func suiteSched(o *suiteOut, r *rng, tier string, n int) {
 			o.fail("C12", "feeding a program in several Execute calls split at token boundaries equals one call (DSC comments)", fmt.Sprintf("sched split-dsc %d %q", hi, parts), one[:min(len(one), 400)], many[:min(len(many), 400)])
 		}
 		o.count("split executions with DSC comments")
+	}
+	// the parts concatenated as they are: a split in the middle of a line, before a comment
+	for hi, parts := range [][]string{
+		{"1 ", "%%Title: x\n2"}, {"1 ", "% plain\n2"}, {"1\t", "%%Title: x\n2"}, {"/a 1 def ", "%%+ more\na"},
+	} {
+		one := runsLine(o, 200000, false, []string{strings.Join(parts, "")})
+		many := runsLine(o, 200000, false, parts)
+		if one != many {
+			o.fail("C12", "feeding a program in several Execute calls split at token boundaries equals one call (split in mid-line before a comment)", fmt.Sprintf("sched split-midline %d %q", hi, parts), one[:min(len(one), 400)], many[:min(len(many), 400)])
+		}
+		o.count("split executions in mid-line before a comment")
 	}
 	o.notes = append(o.notes, "inputs of every kind (programs incl. eexec sections, CMaps, fonts in four formats and from the independent writer, AFM, PFB) under delivery schedules: one byte at a time, data together with EOF, random chunk sizes around the 512-byte buffer, every two-chunk split position (short inputs) or sampled positions, non-seekable source; programs fed in 2-4 Execute calls split at token boundaries (also inside open procedure bodies); oracle: identical result to the single-read run")
 }
@@ -603,12 +623,20 @@ func detOutputs(seed uint64, count int) []string {
 		out = append(out, fmt.Sprintf("font%d-pdf:%d,%d,%x", i, l1, l2, sha256.Sum256(b.Bytes())))
 		out = append(out, fmt.Sprintf("font%d-q:%v|%v|%v|%v", i, f.GlyphList(), f.FontBBox(), f.FontBBoxPDF(), f.NumGlyphs()))
 		m := randMetrics(newRng(r.next()))
-		for k := 0; k < 6; k++ { // several ligatures per glyph
-			for _, g := range m.Glyphs {
+		// every number of ligatures per glyph (0, 1, 2, 3, ... 7), glyphs visited in name order
+		var gnames []string
+		for n := range m.Glyphs {
+			gnames = append(gnames, n)
+		}
+		sort.Strings(gnames)
+		for gi, n := range gnames {
+			g := m.Glyphs[n]
+			g.Ligatures = nil
+			for k := 0; k < gi%8; k++ {
 				if g.Ligatures == nil {
 					g.Ligatures = map[string]string{}
 				}
-				g.Ligatures[fmt.Sprintf("s%d", k)] = fmt.Sprintf("l%d", k)
+				g.Ligatures[fmt.Sprintf("s%d", (k*5+gi)%11)] = fmt.Sprintf("l%d", k)
 			}
 		}
 		d, _, _ := writeMetrics(m)
